@@ -111,7 +111,12 @@ impl Handler for NoProcessGlobalHandler {
   }
 
   fn import_decl(&mut self, imp: &ast_view::ImportDecl, _ctx: &mut Context) {
-    self.most_recent_import_range = Some(imp.range());
+    // The fix adds an import after the last one of the module itself; an
+    // import inside `declare module "x" { .. }` is not in scope of the code
+    // that uses the global.
+    if matches!(imp.parent(), ast_view::Node::Module(_)) {
+      self.most_recent_import_range = Some(imp.range());
+    }
   }
 }
 
